@@ -308,6 +308,16 @@ func checkHandlerCallers(c *Ctx) {
 					if !(e.Recv.IsField(m[1]) && len(e.Args) == 1 && e.Args[0].K == "param") {
 						ok = false
 					}
+					// called only when the slot is set
+					guarded := false
+					for _, l := range pa.Lits {
+						if x, isNil := isNilTest(l.T); isNil && x.IsField(m[1]) && !l.Val {
+							guarded = true
+						}
+					}
+					if !guarded {
+						ok = false
+					}
 				} else if !e.IsPure() && e.Kind != "rundefers" {
 					ok = false
 				}
